@@ -66,6 +66,8 @@ def stepOp (m : M) (op impl : String) : M × String × String :=
       -- normalizeBackupChannelCuts: sorted by key, duplicates rejected
       let sorted := (cuts.toArray.qsort (fun a b => a.ch < b.ch)).toList
       let dup := (sorted.map (·.ch)).eraseDups.length ≠ sorted.length
+      if cuts.any (fun c => c.hw < (curRet m.src.store c.ch).1) then
+        ({ m with stream := none, cuts := [] }, "guard:cut-below-retention", "ok") else
       if dup then ({ m with stream := none, cuts := [] }, "err:invalid", "ok") else
       if sorted.any (fun c => c.st > c.hw) then ({ m with stream := none, cuts := [] }, "err:corrupt", "ok") else
       match exportAll m.src.store sorted with
